@@ -7,8 +7,8 @@
    hypothesis any more. *)
 From Coq Require Import ZArith Reals List Bool Permutation.
 From PW Require Import Num NumR Vec NpList Result.
-From PW.model Require Import M_slicing.
-From PW.proofs Require Import P_slicing P_slicing_face P_slicing_cover P_slicing_mesh P_slicing_perface.
+From PW.model Require Import M_slicing M_slicing_spec.
+From PW.proofs Require Import P_slicing P_slicing_face P_slicing_cover P_slicing_mesh P_slicing_perface P_slicing_public.
 Import ListNotations.
 Local Open Scope R_scope.
 
@@ -34,7 +34,10 @@ Theorem C01_face_signs_are_patterns : forall tol n o t, In (tri_signs ROps tol n
 Proof. exact tri_signs_pattern. Qed.
 
 (* faces excluded by faces_to_slice, and faces wholly on or in front (every corner's true offset >= -tol), come back with
-   their three corners; selected faces with no corner in front (all offsets <= tol) and a corner behind are dropped *)
+   their three corners; selected faces with no corner in front (all offsets <= tol) and a corner behind are dropped.
+   The property text overlaps on a selected face whose three corners all count as on the plane (it is "wholly on" and has
+   "no corner in front"): the code keeps it, and C02's text ("faces lying in the plane being kept by both") says it must; hence
+   the hypothesis "some corner is behind" in the drop rule. *)
 Theorem C01_unselected_kept : forall tol eps n o t, slice_face ROps tol eps n o false t = [t].
 Proof. exact slice_face_unselected. Qed.
 Theorem C01_on_or_in_front_kept : forall tol eps n o m t, 0 <= tol ->
@@ -88,11 +91,18 @@ Theorem C01_slice_face_cover_snapped : forall tol eps ds m t w0 w1 w2, 0 <= tol 
   exists t', In t' (slice_face_signs ROps eps ds (signs3 ROps tol ds) m t) /\ in_tri t' (bary t w0 w1 w2).
 Proof. exact slice_face_signs_cover. Qed.
 
-(* area: the vector areas of the outputs add up to a fraction f in [0,1] of the input face's vector area; together with
-   soundness, orientation and coverage: the outputs tile the clipped face without overlap *)
+(* area: the vector areas of the outputs add up to an EXPLICIT fraction of the input face's vector area, a function of the
+   snapped corner distances only (1 kept, 0 dropped, a/(a-b) * (1 - c/(c-a)) for a cut triangle at the corner with distance a,
+   c/(c-a) + (1 - a/(a-b)) * (1 - c/(c-a)) for a quad around the corner with distance a), and it lies in [0,1].
+   Non-overlap of the outputs is not a consequence of this theorem alone: it follows with C02_slice_complement (the fractions
+   of the two sides add up to 1) and coverage on both sides by a measure argument that is not formalised here; the oracle
+   checks the area against an independently clipped polygon. *)
 Theorem C01_slice_face_area : forall tol eps n o m t, 0 <= tol ->
-  exists f, 0 <= f <= 1 /\ vsum_normals (slice_face ROps tol eps n o m t) = vscale ROps f (tri_normal t).
-Proof. exact slice_face_area. Qed.
+  let f := frac_case (face_case (tri_signs ROps tol n o t) m) (tri_dists ROps tol n o t) in
+  0 <= f <= 1 /\ vsum_normals (slice_face ROps tol eps n o m t) = vscale ROps f (tri_normal t).
+Proof.
+  intros tol eps n o m t Ht. exact (slice_face_signs_area tol eps _ m t Ht (tri_dists_snapped tol n o t Ht)).
+Qed.
 
 (* the mesh pipeline (masks, group order, appended vertex numbering, renumbering) is the per-face kernel applied to every
    face: for all vertex lists, face lists and masks, the returned coordinate triangles paired with the returned face
@@ -109,6 +119,31 @@ Theorem C01_slice_mesh_is_per_face : forall tol eps vs fs n o fi r, vs <> [] ->
                 (indexed rows)).
 Proof. exact slice_mesh_is_per_face. Qed.
 
+(* ---- the public entry point slice_triangles_by_plane with the real merge tolerance 1e-8 -------------------------- *)
+Theorem C01_merge_tol_nonneg : 0 <= merge_tol ROps.
+Proof. exact merge_tol_nonneg. Qed.
+(* on the domain (faces index the vertices, the mask if any has one entry per face) the call returns *)
+Theorem C01_slice_returns_on_domain : forall vs fs ref n mask,
+  (forall f, In f fs -> face_valid (length vs) f) -> mask_ok (length fs) mask ->
+  exists r, slice_triangles_by_plane ROps vs fs ref n mask = Ok r.
+Proof. exact slice_total. Qed.
+(* every returned triangle j comes from input face mapping[j] through the per-face kernel; every point of it lies in that
+   face, and, if the face was selected, not further than 1e-8 behind the plane *)
+Theorem C01_public_slice_sound : forall vs fs ref n mask r, vs <> [] ->
+  slice_triangles_by_plane ROps vs fs ref n mask = Ok r ->
+  forall i x, In (i, x) (zip (mo_map r) (mesh_tris (mo_v r) (mo_f r))) ->
+  exists f t t' m, nth_error fs i = Some f /\ lookup3 vs f = Some t /\ x = Some t' /\
+    In t' (slice_face ROps (merge_tol ROps) (patch_eps ROps) n ref m t) /\
+    forall p, in_tri t' p -> in_tri t p /\ (m = true -> - merge_tol ROps <= pd n ref p).
+Proof. exact public_slice_sound. Qed.
+
+(* non-vacuity of the conditional mesh theorems: a concrete call that returns *)
+Example C01_call_returns_inhabited :
+  exists r, slice_triangles_by_plane ROps [V3 0 0 1; V3 1 0 0; V3 0 1 (-1)] [mkface 0 1 2] (V3 0 0 0) (V3 0 0 1)
+              (Some [true]) = Ok r.
+Proof.
+  apply slice_total; [|reflexivity]. intros f [<-|[]]. unfold face_valid. cbn. Lia.lia.
+Qed.
 (* non-vacuity: a face and a point of it further than tol in front of the plane *)
 Example C01_cover_inhabited :
   in_tri (V3 0 0 1, V3 1 0 0, V3 0 1 (-1)) (V3 0 0 1) /\ 1/100000000 < pd (V3 0 0 1) (V3 0 0 0) (V3 0 0 1).
@@ -121,5 +156,5 @@ Definition C01_all := (C01_snap, C01_classify, C01_slice_face_cases, C01_slice_f
   C01_unselected_kept, C01_on_or_in_front_kept, C01_no_corner_in_front_dropped,
   C01_slice_face_sound, C01_slice_face_sound_snapped, C01_slice_face_orient, C01_crossing_point,
   C01_cut_parameter_in_unit_interval, C01_crossing_point_on_plane, C01_slice_face_cover, C01_slice_face_cover_snapped,
-  C01_slice_face_area, C01_slice_mesh_is_per_face).
+  C01_slice_face_area, C01_slice_mesh_is_per_face, C01_merge_tol_nonneg, C01_slice_returns_on_domain, C01_public_slice_sound).
 Print Assumptions C01_all.
